@@ -225,4 +225,32 @@ end
 
 end sem
 
+/-! ### which operators a chain is made of, when operands have effects
+
+The chain `e0 f1 e1 … fn en` is made of the function values and precedences the operator
+expressions have AT THEIR POSITION in the left-to-right evaluation order: `f_i` is looked up after
+`e_(i-1)` has been evaluated and before `e_i` is.  `resolveOps` is that sequence (and the state
+after the last operand); the value of the chain is then the value of the valid tree over it. -/
+
+section resolve
+variable {σ E F V : Type} (J : LangS σ E F V)
+
+def resolveOps : List (E × E) → σ → Option (List (F × Precedence × V)) × σ
+  | [], s => (some [], s)
+  | (oper, opd) :: rest, s =>
+    match J.evaluate oper s with
+    | (.ok w, s1) =>
+      match J.asFunc w with
+      | some (f, p) =>
+        match J.evaluate opd s1 with
+        | (.ok v, s2) =>
+          match resolveOps rest s2 with
+          | (some ts, s3) => (some ((f, p, v) :: ts), s3)
+          | (none, s3) => (none, s3)
+        | (_, s2) => (none, s2)
+      | none => (none, s1)
+    | (_, s1) => (none, s1)
+
+end resolve
+
 end Noulith.Chain
